@@ -24,7 +24,9 @@ async fn run_world(wi: u64, mut rng: Rng) -> anyhow::Result<(String, serde_json:
     let mut nodes = vec![];
     for i in 0..n {
         let addr: SocketAddr = format!("10.{}.{}.1:9000", i + 1, i + 1).parse()?;
-        nodes.push(Arc::new(spawn_node(&net, &format!("c20w{}n{}x{}", wi, i, rng.below(1 << 20)), addr, timeout, 4).await?));
+        // the transport's connection timeout is much longer than the DHT request timeout: every wait of an operation
+        // must be governed by the REQUEST timeout (the bound the property speaks of)
+        nodes.push(Arc::new(spawn_node_ct(&net, &format!("c20w{}n{}x{}", wi, i, rng.below(1 << 20)), addr, timeout, Duration::from_millis(20 * T_MS), 4).await?));
     }
     let mut degree = vec![0usize; n];
     for i in 0..n { for j in (i + 1)..n {
@@ -39,6 +41,8 @@ async fn run_world(wi: u64, mut rng: Rng) -> anyhow::Result<(String, serde_json:
     }
     let t_setup = tw0.elapsed().as_millis();
     net.set_delays(rng.next(), rng.range(0, 20_000));
+    // a silent node is a dead address: dialling it never completes
+    net.hang_silent_dials.store(true, std::sync::atomic::Ordering::SeqCst);
     // some stored data so that gets can succeed
     let mut keys = vec![];
     for _ in 0..3 { let b = rng.bytes(32); let mut k = [0u8; 32]; k.copy_from_slice(&b); keys.push(k); }
@@ -111,6 +115,10 @@ async fn run_world(wi: u64, mut rng: Rng) -> anyhow::Result<(String, serde_json:
         for e in trace.iter().filter(|e| e.at_ms + 50 >= stop_returned_at - stop_ms) {
             eprintln!("  {:>6} {}->{} req={} {} delivered={} {:?}", e.at_ms, &e.from[..6], &e.to[..6.min(e.to.len())], e.is_request, e.op, e.delivered, e.result);
         }
+    }
+    // every dial to a dead address must have been given up within the request timeout
+    for e in trace.iter().filter(|e| e.op == "DialEnd") {
+        obs.push(("OpWait".into(), e.msg_id.parse().unwrap_or(0)));
     }
     let late: Vec<&TraceEv> = trace.iter().filter(|e| e.is_request && e.from == nodes[a].tid && e.at_ms > stop_returned_at + 2).collect();
     let mut viol = vec![];
